@@ -28,10 +28,22 @@ CHECKS = {
   text="Lean theorems: a listed selector resolves to the same handler selector through Gopher, HTTP(S), WAP and Spartan (and the Gemini path pipeline); trailing slash is irrelevant; writedir walks the same entry list in the same order for every view, abstract lines being the only difference and decided uniformly for all non-Gopher+ protocols; a search string with bytes bs reaches the handlers as decode(bs) through the HTTP searchrequest parameter and the Gemini URL query (percent-encoded) and literally through the Gopher tab field. Tie: (selector, search) seen by a recording handler vs Model/Proto on seeded requests in all syntaxes. Oracle (model-free): (name,target) sequences parsed client-side from 7 views x 3 abstract settings of every directory of a generated site are equal; trailing-slash variants; same MIME everywhere; search strings equal through 6 mechanisms.",
   note="Gopher cannot express search strings containing TAB or beginning with + ! $ (protocol syntax); Gemini/Spartan display names pass through backslashreplace by design",
   technique="Lean 4 proof (request-pipeline equalities, walk invariants, query-string decoding) + correspondence + cross-protocol oracle"),
+ "C07": dict(
+  text="Lean theorems: the listing is invariant under every permutation of the enumeration (members are walked in name order; mergeSort of permutations of a list with distinct names is equal), for both handlers and including link-file collection; the plain handler's listing is exactly, in name order, the entry of every member the ignore pattern does not match and that can be served — nothing else, each once (exact characterisation, nothing_else and all_listed corollaries); dot files and pattern-matched names are hidden; the shipped ignore pattern (extracted from conf) lies inside the modelled regex fragment and its sharp edges are pinned. Tie: real listings of both handlers under seeded os.listdir permutations vs Model/Umn given the same enumeration, byte for byte; regex fragment vs Python re on the name corpus. Oracle: listed == independently computed visible names, each once; identical output under permutations; hidden names retrievable by selector.",
+  note="the regex fragment covers alternation/literal/'.'/escape/'$' only (reported degraded otherwise); per-child entries are built from stat/MIME oracles; 'hidden entries remain retrievable' is decided by the oracle, not a theorem",
+  technique="Lean 4 proof (sort/permutation invariance, exact listing characterisation) + byte-level correspondence under shuffled enumeration"),
+ "C08": dict(
+  text="Lean theorems: entrycmp on named entries is exactly the lexicographic order on (class: positive/unnumbered/negative, number, title), total and transitive, and the sorted listing is pairwise in that order for every entry list (numbered first ascending, then unnumbered by title, then negative); mergeentries overrides exactly the fields the block sets and keeps the rest, a block without Numb= leaves the number alone, link entries start unnumbered; a block whose Path does not start with ./ adds a new entry and leaves directory entries untouched; a .cap with Type=X or - hides the file; executable spot checks of the link-file reader on the manual's samples (Host=+/Port=+, relative path normalisation, abstract continuation, .cap). Tie: real UMN listings (menu and '$' view) of generated link files, .cap files and sidecars vs Model/Umn byte for byte. Oracle: independent reference reader of the documented semantics under three extstrip modes.",
+  note="the full parser-refines-spec theorem is not proved (the reader is tied by correspondence and spot checks); well-formed link files only; ties on (number,title) excluded as the property says",
+  technique="Lean 4 proof (comparator = documented order, merge semantics) + byte-level correspondence + reference-reader oracle"),
  "C09": dict(
   text="Lean theorems for every gophermap file and line: one entry per line in file order (parse distributes over concatenation, no state crosses lines), a line without a tab is an info entry with the stripped text, otherwise first character = type, rest of first field = description, missing selector defaults to the description, a selector starting neither with '/' nor 'URL:' is resolved against the directory, host/port taken when present else unset and rendered as this server, population from the file system never changes authored selector/host/port, well-formed lines never raise; the same parsed list drives every protocol view. Tie: real listings in seven views (Gopher, Gopher+ '+' and '$', HTTP, WAP, Gemini, Spartan) of seeded gophermaps at depth 0-3 vs the model, byte for byte in the rows region, with stat/MIME/sidecar answers of existing targets fed to the model. Oracle: independent reader written from doc/standards/gophermap.txt.",
   note="port fields restricted to ASCII decimals (int() accepts more); boilerplate around the rows and Mod-Date formatting are masked; library answers (stat, mimetypes, regex mapping) are oracles",
   technique="Lean 4 proof of the gophermap parser model + byte-level differential correspondence in seven views"),
+ "C12": dict(
+  text="Lean theorems on the directory model: adding an unservable member (no handler or I/O error while building its entry, contents unreadable) anywhere in the enumeration leaves the listing exactly as it is without it — same success, same entries, same order — for the plain and the UMN handler, for any number of such members (via mergeSort_cons and append lemmas for link collection and entry building); a name containing any forbidden substring of the extracted selector filter yields an insecure child selector whatever the directory. Tie: real listings with injected faults vs the model with those members marked unservable by independent inspection. Oracle: listing of the faulty directory == listing of the healthy twin in 7 views x 2 handlers for dangling and self-looping symlinks, FIFO, socket, vanishing member, filter-rejected names, dot-named variants, singles and pairs.",
+  note="EACCES is represented by the vanished-member path; a dot-named FIFO is replaced by a socket (open would block in the OS)",
+  technique="Lean 4 proof (fault transparency of the listing function) + correspondence + healthy-twin oracle"),
  "C13": dict(
   text="Lean theorems: for any page built from literal segments and escaped data slots whose slots are all reached outside tag position (a check computed on the literals alone), the tag/attribute skeleton and final tokenizer state are the same for ALL data (skeleton_of_shape, by induction on the segment list); every builder that mirrors pygopherd's HTML/WML generators (HTTP rows for every entry shape and icon of the extracted icon table, directory start, error pages, URL redirect page, WML rows for every counter value and access key, WML error/start pages, text-to-WML for every file) is proved safe and composition-closed; html.escape output never contains < > \" '; the URL filter refuses a double quote; Gopher+ attribute content lines are indented and free of line breaks, so none can pass for a block header. Tie: real listing rows, error pages and WML text pages equal the model's emitted segments byte for byte. Oracle: skeleton(real page with payload) == skeleton(real page with inert twin) in every echo position; header lines server-chosen.",
   note="browser parsing is represented by a four-state tokenizer; the configurable page topper is administrator markup; HTML <title> position only partly exercised",
